@@ -33,7 +33,7 @@ type c05 struct {
 func init() { Props["C05"] = &c05{} }
 
 func (c *c05) Rule() string {
-	return "grid of (input family x size, limit in {0,1,2,len-1,len,len+1,64,3072,2*len}) pairs; per pair every fault offset 0..min(len,limit) (0..len when limit=0; quick tier: head, tail and a seeded sample of the middle when there are more than 700) x {error alone, error together with data} x seeded delivery schedules (single read, byte-at-a-time, random chunks with zero-length reads, data+EOF, scribbling), through DetectReader (plain reader, readers that also offer io.WriterTo / io.Seeker / Len(), *bytes.Reader) and DetectFile (simulated files; real temp files/directories for the kernel-fidelity subset). A case is non-trivial when the injected fault actually fired or a non-default delivery schedule was executed; distinct = distinct (input, limit, entry point, fault offset, with-data, schedule class) tuples"
+	return "grid of (input family x size, limit in {0,1,2,len-1,len,len+1,64,3072,2*len} plus 511..513, 1023..1025, 4095..4097, 65535..65537 where smaller than the input) pairs; per pair every fault offset 0..min(len,limit) (0..len when limit=0; sampled - head, tail, block boundaries and a seeded sample of the middle - when there are more than 700 in the quick tier, more than 8192 in the thorough tier) x {error alone, error together with data} x seeded delivery schedules (single read, byte-at-a-time, random chunks with zero-length reads, data+EOF, scribbling), through DetectReader (plain reader, readers that also offer io.WriterTo / io.Seeker / Len(), *bytes.Reader) and DetectFile (simulated files; real temp files/directories for the kernel-fidelity subset). A case is non-trivial when the injected fault actually fired or a non-default delivery schedule was executed; distinct = distinct (input, limit, entry point, fault offset, with-data, schedule class) tuples"
 }
 
 func c05Inputs() []inputs.Input {
@@ -57,6 +57,7 @@ func c05Inputs() []inputs.Input {
 		I("gzip", 20, 0, 0), I("random", 5000, 0, 0), I("random", 7, 0, 0),
 		I("shebang", 10, 0, 0), I("svg", 40, 0, 0), I("utf8", 200, 1, 3), I("utf8", 3100, 0, 1),
 		I("csv_ragged", 4, 3, 2), I("json_trunc", 3072, 3000, 0),
+		I("text", 10000, 0, 0), I("json", 20000, 0, 0), I("random", 70000, 0, 0), I("csv_big", 2000, 0, 5),
 	}
 }
 
@@ -69,7 +70,16 @@ func (c *c05) build(seed uint64, tier string) {
 	for _, in := range c05Inputs() {
 		n := len(in.Bytes())
 		seen := map[uint32]bool{}
-		for _, l := range []int{0, 1, 2, n - 1, n, n + 1, 64, 3072, 2 * n} {
+		ls := []int{0, 1, 2, n - 1, n, n + 1, 64, 3072, 2 * n}
+		// powers of two and their neighbours that fall inside the input: block-wise readers
+		for _, b := range []int{512, 1024, 4096, 65536} {
+			for _, l := range []int{b - 1, b, b + 1} {
+				if l < n {
+					ls = append(ls, l)
+				}
+			}
+		}
+		for _, l := range ls {
 			if l < 0 || seen[uint32(l)] {
 				continue
 			}
@@ -86,7 +96,7 @@ func (c *c05) build(seed uint64, tier string) {
 		}
 		// offsets 0..m inclusive; beyond-the-header offsets m+1.. are sampled: they must never surface
 		var offs []int
-		if tier == "thorough" || m <= 700 {
+		if (tier == "thorough" && m <= 8192) || m <= 700 {
 			for k := 0; k <= m; k++ {
 				offs = append(offs, k)
 			}
@@ -99,7 +109,18 @@ func (c *c05) build(seed uint64, tier string) {
 			for k := m - 64; k <= m; k++ {
 				pick[k] = true
 			}
-			for i := 0; i < 96; i++ {
+			mid := 96
+			if tier == "thorough" {
+				mid = 1500
+				for _, b := range []int{512, 1024, 4096, 8192, 16384, 32768, 65536} { // block boundaries
+					for k := b - 2; k <= b+2; k++ {
+						if k > 0 && k < m {
+							pick[k] = true
+						}
+					}
+				}
+			}
+			for i := 0; i < mid; i++ {
 				pick[r.Range(65, m-65)] = true
 			}
 			for k := 0; k <= m; k++ {
@@ -128,6 +149,26 @@ func (c *c05) build(seed uint64, tier string) {
 var chunkMenu = []int{0, 1, 1, 2, 3, 7, 64, 500, 4096}
 
 func c05Delivery(r *core.Rand, class int, k int, withData bool) *simio.Delivery {
+	d := c05DeliveryRaw(r, class, k, withData)
+	return d
+}
+
+// coarsen keeps the number of Read calls bounded for large streams: tiny chunk
+// sizes are scaled up (zero-length reads stay).
+func coarsen(d *simio.Delivery, n int) *simio.Delivery {
+	if n <= 4096 {
+		return d
+	}
+	f := n / 2048
+	for i, c := range d.Chunks {
+		if c > 0 && c < 64 {
+			d.Chunks[i] = c * f
+		}
+	}
+	return d
+}
+
+func c05DeliveryRaw(r *core.Rand, class int, k int, withData bool) *simio.Delivery {
 	d := &simio.Delivery{FaultAt: k, FaultWithData: withData}
 	switch class {
 	case 0: // single read
@@ -200,7 +241,7 @@ func (c *c05) Plan(seed uint64, tier string, worker, workers, idx int) *Plan {
 				if k < 0 && wd {
 					continue
 				}
-				op := Op{In: &in, Del: c05Delivery(r, class, k, wd)}
+				op := Op{In: &in, Del: coarsen(c05Delivery(r, class, k, wd), n)}
 				switch e := r.Intn(8); {
 				case e < 4:
 					op.Kind = "reader"
